@@ -386,21 +386,17 @@ Definition clean_strings (p : dict) : Prop :=
 
 Lemma kml_data_clean : forall p, clean_strings p -> kml_data p = Ok p.
 Proof.
-  unfold kml_data. induction p as [|[k v] p IH]; intros H; [reflexivity|].
+  induction p as [|[k v] p IH]; intros H; [reflexivity|].
   inversion H as [|? ? (s & E & N) Hr]; subst. cbn in E. subst v.
   specialize (IH Hr). destruct s as [|c s]; [contradiction|].
-  change (mapM (fun kv : string * json => match kml_value (snd kv) with Ok v => Ok (fst kv, v) | Err e => Err e end)
-               ((k, JStr (String c s)) :: p))
-    with (match mapM (fun kv : string * json => match kml_value (snd kv) with Ok v => Ok (fst kv, v) | Err e => Err e end) p with
-          | Err e => Err e | Ok bs => Ok ((k, JStr (String c s)) :: bs) end).
-  rewrite IH. reflexivity.
+  cbn [kml_data kml_value falsy]. rewrite IH. reflexivity.
 Qed.
 
 (* a property value that is not a string (and not falsy) makes the writer raise *)
 Lemma kml_nonstring_refuted : forall orc g dt k n, n <> 0 ->
   to_placemark orc (mkshape g dt [(k, JInt n)]) = Err OtherError.
 Proof.
-  intros orc g dt k n H. unfold to_placemark, kml_data. cbn. unfold kml_value. cbn [falsy].
+  intros orc g dt k n H. unfold to_placemark. cbn [sprops kml_data]. unfold kml_value. cbn [falsy].
   destruct (n =? 0) eqn:E; [lia|reflexivity].
 Qed.
 
